@@ -10,7 +10,14 @@ Dynamic side: (i)   model vs implementation on the full pipeline (corecheck.comp
               (ii)  the independent Python statement of C09 evaluated on the IMPLEMENTATION's compact
                     and indented JSON and Title() (harness `run out=both`);
               (iii) documents that stress names / paths / method names (spaces, quotes, non-ASCII,
-                    invalid UTF-8).
+                    invalid UTF-8);
+              (iv)  stage_json_keys: the Gallina model of encoding/json's string writer
+                    (coq/model/JsonString.v: json_quote, valid_utf8, json_unquote, decode_rune; the
+                    theorems json_text_*_keys_unique_partial of props/C09.v are about it) against
+                    json.Marshal / utf8.ValidString / json.Unmarshal / utf8.DecodeRuneInString, against
+                    the key text that the library's own one-entry Servers / UserTypes / UserEnums /
+                    Tags / Interactions write inside Catalog.ToJson and ToJsonIndent, and against the
+                    key texts of whole accepted projects (harness jsonkey / jsonkeycat / jsonkeyproj).
 Known finding classes (reported as KNOWN-FINDING when listed in known_findings.json, else violations):
   rpc-id-space      two different JSON-RPC ids (method, path) with one String(): Method "x /b" on /a
                     and Method x on "/b /a" (theorems rpc_id_string_not_injective_refuted,
@@ -355,6 +362,193 @@ def classify_dup(v_pairs, site, root_bytes):
 
 
 # ---------------------------------------------------------------------------------------------
+# (iv) the JSON text of a key: model/JsonString.v against encoding/json and the library's marshalling
+
+# bytes that the writer treats specially, and the pieces of the multi-byte sequences named below
+JK_ALPHABET = bytes([0x22, 0x5c, 0x3c, 0x3e, 0x26, 0x00, 0x08, 0x09, 0x0a, 0x0c, 0x0d, 0x1f, 0x20, 0x2f, 0x61, 0x7f,
+                     0x80, 0x8f, 0x90, 0x9f, 0xa0, 0xa8, 0xa9, 0xbd, 0xbf, 0xc0, 0xc2, 0xe0, 0xe2, 0xed, 0xef, 0xf0, 0xf4, 0xff])
+JK_TOKENS = [bytes([c]) for c in JK_ALPHABET] + [
+    b"\xc3\xa9", b"\xc2\x80", b"\xdf\xbf", b"\xc0\x80", b"\xc1\xbf",                   # 2 bytes; overlong
+    b"\xe2\x80\xa8", b"\xe2\x80\xa9", b"\xe2\x80\xa7", b"\xe2\x80\xaa", b"\xe2\x81\xa8",  # U+2028, U+2029 and neighbours
+    b"\xe0\xa0\x80", b"\xe0\x9f\xbf", b"\xe0\x80\x80",                                  # least 3-byte; overlong
+    b"\xed\x9f\xbf", b"\xed\xa0\x80", b"\xed\xbf\xbf", b"\xee\x80\x80",                  # around the surrogates
+    b"\xef\xbf\xbd", b"\xef\xbf\xbe", b"\xef\xbf\xbf", b"\xef\xbb\xbf",                  # U+FFFD itself, U+FFFE/F, BOM
+    b"\xf0\x90\x80\x80", b"\xf0\x8f\xbf\xbf", b"\xf0\x9f\x98\x80", b"\xf4\x8f\xbf\xbf", b"\xf4\x90\x80\x80",
+    b"\xf5\x80\x80\x80", b"\xf8\x88\x80\x80\x80", b"\xf0\x90\x80", b"\xe2\x80", b"\xf0\x9f\x98",   # out of range; cut short
+    b"\\u2028", b"\\ufffd", b"\\\"", b"\\\\", b"\\u003c", b"</script>", b"http GET /a",
+]
+
+
+def jk_strings(rng, quick):
+    """(origin, bytes) pairs, no duplicates"""
+    seen = set()
+    out = []
+
+    def add(origin, b):
+        if b not in seen:
+            seen.add(b)
+            out.append((origin, b))
+
+    for b in C.all_strings(JK_ALPHABET, 3):
+        add("alphabet<=3", b)
+    for a in range(256):
+        add("every byte", bytes([a]))
+    for a in range(256):
+        for b in range(256):
+            add("every pair of bytes", bytes([a, b]))
+    for n in (1, 2) if quick else (1, 2, 3):
+        cur = [b""]
+        for _ in range(n):
+            cur = [x + t for x in cur for t in JK_TOKENS]
+        for b in cur:
+            add("tokens<=%d" % (2 if quick else 3), b)
+    for _ in range(6000 if quick else 150000):
+        n = rng.randint(3, 40)
+        parts = []
+        while sum(map(len, parts)) < n:
+            r = rng.random()
+            if r < 0.55:
+                parts.append(rng.choice(JK_TOKENS))
+            elif r < 0.8:
+                parts.append(bytes([rng.randrange(256)]))
+            else:
+                parts.append(chr(rng.choice([rng.randrange(0x80, 0x800), rng.randrange(0x800, 0xd800), rng.randrange(0xe000, 0x10000),
+                                             rng.randrange(0x10000, 0x110000), 0x2028, 0x2029, 0xfffd])).encode("utf-8"))
+        add("random", b"".join(parts))
+    return out
+
+
+def jk_documents(strings, rng, quick):
+    """one-file projects whose path / method name / declaration name holds the bytes; most of them
+    are rejected for most byte strings, the accepted ones are what is compared"""
+    pool = [b for o, b in strings if o in ("alphabet<=3", "every byte") and len(b) <= 2]
+    tok = [b for o, b in strings if o.startswith("tokens")]
+    pool += rng.sample(tok, min(len(tok), 3000 if quick else 30000))
+    rnd = [b for o, b in strings if o == "random"]
+    pool += rng.sample(rnd, min(len(rnd), 1500 if quick else 20000))
+    docs = []
+    for b in pool:
+        q = b.replace(b"\\", b"\\\\").replace(b'"', b'\\"')
+        docs.append(J + b"GET /x" + b + b"\n  200 any\n")
+        docs.append(J + b'GET "/x' + q + b'"\n  200 any\n')
+        docs.append(J + b'URL /r\n  Protocol json-rpc-2.0\n  Method "m' + q + b'"\n')
+        docs.append(J + b"TAG @t" + b + b"\nSERVER @s" + b + b'\n  BaseUrl "http://x"\n')
+        docs.append(J + b"TYPE @u" + b + b"\n  {}\nENUM @e" + b + b"\n  [1]\nGET /y\n  200 @u" + b + b"\n")
+    return docs
+
+
+def stage_json_keys(res, rng, quick, only=None):
+    """returns (mismatches, clause_violations): lists of (message, replay dict)"""
+    strings = [("replay", b) for b in only] if only is not None else jk_strings(rng, quick)
+    hexes = [C.hx(b) for _, b in strings]
+    mismatches, clause_bad = [], []
+
+    def mismatch(what, b, model, impl):
+        mismatches.append(("JSON key text: %s: model and implementation disagree on the bytes %r: model %s, implementation %s" % (
+            what, b, model[:160], impl[:160]),
+            {"correspondence": "model/JsonString.v against " + what, "jsonkey_bytes": C.hx(b), "model": model, "impl": impl}))
+
+    # (a) json_quote / valid_utf8 / json_unquote against json.Marshal / utf8.ValidString / json.Unmarshal
+    model = C.run_sharded("modelrun", None, ["jsonkey " + h for h in hexes])
+    impl = C.run_sharded("harness", "fn", ["jsonkey " + h for h in hexes])
+    n_escaped = n_invalid = 0
+    by_text = {}
+    for (origin, b), m, i in zip(strings, model, impl):
+        if m != i:
+            mismatch("json.Marshal(string) / utf8.ValidString / json.Unmarshal", b, m, i)
+            continue
+        text, valid, back = i.split(" ")
+        if C.unhx(text) != b'"' + b + b'"':
+            n_escaped += 1
+            res.nontrivial(("jsonkey", b))
+        if valid == "0":
+            n_invalid += 1
+        by_text.setdefault(text, []).append((b, valid))
+    # what the theorems say, looked at on the implementation's own output: different valid UTF-8 strings have
+    # different texts (json_quote_injective_on_valid_utf8), the text is read back as the string
+    # (json_unquote_quote); texts shared by strings that are not valid UTF-8 are the recorded finding
+    collapsing = mixed = 0
+    for text, group in by_text.items():
+        valid_ones = [b for b, v in group if v == "1"]
+        if len(valid_ones) > 1:
+            clause_bad.append(("no repeated key in any object: the different valid UTF-8 strings %r and %r have the one JSON text %r "
+                               "(theorem json_quote_injective_on_valid_utf8 does not hold of encoding/json)" % (valid_ones[0], valid_ones[1], C.unhx(text)),
+                               {"jsonkey_bytes": C.hx(valid_ones[0]), "other": C.hx(valid_ones[1]), "text": text}))
+        if len(group) > 1:
+            collapsing += len(group)
+            mixed += 1 if valid_ones else 0
+    for (origin, b), i in zip(strings, impl):
+        parts = i.split(" ")
+        if len(parts) == 3 and parts[1] == "1" and C.unhx(parts[2] if parts[2] != "!" else "-") != b:
+            clause_bad.append(("valid JSON: the text json.Marshal writes for the valid UTF-8 string %r is read back as %s" % (b, parts[2]),
+                               {"jsonkey_bytes": C.hx(b), "impl": i}))
+    # (b) decode_rune against utf8.DecodeRuneInString
+    dec = [h for h, (_, b) in zip(hexes, strings) if len(b) <= 5]
+    dm = C.run_sharded("modelrun", None, ["decoderune " + h for h in dec])
+    di = C.run_sharded("harness", "fn", ["decoderune " + h for h in dec])
+    for h, m, i in zip(dec, dm, di):
+        if m != i:
+            mismatch("utf8.DecodeRuneInString", C.unhx(h), m, i)
+    # (c) the library's own collections inside Catalog.ToJson / ToJsonIndent
+    cat = C.run_sharded("harness", "fn", ["jsonkeycat " + h for h in hexes])
+    n_cat = 0
+    for (origin, b), m, c in zip(strings, model, cat):
+        want = m.split(" ")[0]
+        parts = c.split(" ")
+        if parts[0] != "ok" or len(parts) != 6:
+            mismatch("the key of one-entry Servers/UserTypes/UserEnums/Tags/Interactions in Catalog.ToJson (outcome)", b, want, c)
+            continue
+        n_cat += 5
+        for name, got in zip(("servers", "userTypes", "userEnums", "tags", "interactions"), parts[1:]):
+            if got != want:
+                mismatch("the key of a one-entry catalog.%s in Catalog.ToJson" % name, b, want, got)
+    # (d) whole projects
+    n_docs = n_acc = n_keys = n_keys_escaped = 0
+    per_map = {}
+    if only is None:
+        docs = jk_documents(strings, rng, quick)
+        n_docs = len(docs)
+        outs = C.run_sharded("harness", "fn", ["jsonkeyproj " + C.hx(d) for d in docs])
+        pairs = []
+        for d, o in zip(docs, outs):
+            parts = o.split(" ")
+            if parts[0] == "rejected":
+                continue
+            if parts[0] != "ok":
+                clause_bad.append(("serialisation succeeds: an accepted document gives %s" % o[:200], {"project": [(C.hx("a.jst"), C.hx(d))], "outcome": o}))
+                continue
+            n_acc += 1
+            for e in parts[1:]:
+                letter, go, raw = e.split(":")
+                pairs.append((d, letter, go, raw))
+        want = C.run_sharded("modelrun", None, ["jsonkey " + go for _, _, go, _ in pairs]) if pairs else []
+        for (d, letter, go, raw), m in zip(pairs, want):
+            n_keys += 1
+            per_map[letter] = per_map.get(letter, 0) + 1
+            if C.unhx(raw) != b'"' + C.unhx(go) + b'"':
+                n_keys_escaped += 1
+                res.nontrivial(("jsonkeyproj", letter, go))
+            if m.split(" ")[0] != raw:
+                mismatches.append(("JSON key text: the key %r of map %s of an accepted project is written %r, the model writes %r" % (
+                    C.unhx(go), letter, C.unhx(raw), C.unhx(m.split(" ")[0])),
+                    {"correspondence": "model/JsonString.v against the key text in Catalog.ToJson of a project", "jsonkey_bytes": go,
+                     "project": [(C.hx("a.jst"), C.hx(d))], "model": m, "impl": raw}))
+    res.count(len(strings) + n_docs)
+    origins = {}
+    for o, _ in strings:
+        origins[o] = origins.get(o, 0) + 1
+    res.notes["json_keys"] = {
+        "strings": len(strings), "by_origin": origins, "written_with_an_escape": n_escaped, "not_valid_utf8": n_invalid,
+        "strings_sharing_their_text_with_another (the recorded finding)": collapsing,
+        "shared_texts_with_a_valid_utf8_string_among_them": mixed,
+        "decode_rune_compared": len(dec), "catalog_collection_keys_compared": n_cat,
+        "project_documents": n_docs, "project_documents_accepted": n_acc, "project_keys_compared": n_keys,
+        "project_keys_written_with_an_escape": n_keys_escaped, "project_keys_by_map (S servers T types E enums G tags I interactions)": per_map,
+        "mismatches": len(mismatches)}
+    return mismatches, clause_bad
+
+
+# ---------------------------------------------------------------------------------------------
 
 HEXRUN = re.compile(r"(?<![0-9a-f])(?:[0-9a-f]{2})+(?![0-9a-f])")
 
@@ -395,9 +589,27 @@ def run(res, tier, seed, replay):
         "enum, server, tag names / titles containing spaces, quotes, escapes, non-ASCII and invalid UTF-8; every project runs "
         "NewJapi+ValidateJAPI+ToJson+ToJsonIndent+Title and the full model pipeline; on every ACCEPTED project the Python "
         "statement of C09 is evaluated on the implementation's two JSON texts; non-trivial = accepted with >= 1 interaction; "
-        "distinct by project hash")
+        "distinct by project hash; and (stage_json_keys) byte strings: all strings up to length 3 over an alphabet of the bytes the JSON "
+        "string writer treats specially and of the pieces of multi-byte sequences, every single byte, every pair of bytes, sequences of "
+        "tokens (2-4 byte sequences at the borders of the UTF-8 ranges, overlong, surrogate, out of range, cut short, U+2028/9, U+FFFD, "
+        "escape look-alikes), random strings of tokens, bytes and code points up to 40 bytes: each through json.Marshal, utf8.ValidString, "
+        "json.Unmarshal, one-entry collections in Catalog.ToJson/ToJsonIndent, and as path / method name / declaration name of one-file "
+        "projects; non-trivial there = the text is not the bytes between two quotes")
     if not (pr.harness_ok and pr.model_ok):
         res.violation("build failed: " + (pr.harness_err or pr.model_err)[-800:], {"obligation": "build"}, found_input=False)
+        return
+    # ---- (iv) the JSON text of keys
+    only = None
+    if replay:
+        r = json.load(open(replay))
+        if "jsonkey_bytes" in r and "project" not in r:
+            only = [C.unhx(r["jsonkey_bytes"])] + ([C.unhx(r["other"])] if "other" in r else [])
+    jk_mismatches, jk_clauses = stage_json_keys(res, rng, quick, only)
+    for msg, rp_ in jk_clauses:
+        res.violation("C09 clause violated by the implementation: " + msg, rp_)
+    if only is not None:
+        for msg, rp_ in jk_mismatches[:1]:
+            res.violation(msg, rp_, found_input=False)
         return
     # ---- inputs
     projects = []       # (origin, project)
@@ -499,7 +711,7 @@ def run(res, tier, seed, replay):
 
     # ---- verdict
     known_ids = {f.get("id") for f in C.load_known().get("findings", []) if f.get("property") == "C09"}
-    for cls, kid, thm in (("rpc-id-space", KNOWN_RPC, "json_keys_unique_refuted"), ("invalid-utf8-key", KNOWN_UTF8, "keys_unique (byte level)")):
+    for cls, kid, thm in (("rpc-id-space", KNOWN_RPC, "json_keys_unique_refuted"), ("invalid-utf8-key", KNOWN_UTF8, "keys_unique (byte level), json_text_keys_unique_refuted")):
         hits = known_hits[cls]
         if not hits:
             continue
@@ -524,6 +736,11 @@ def run(res, tier, seed, replay):
     if not pr.proof_ok:
         res.violation("proof obligation no longer checks: %s" % pr.proof_err,
                       {"obligation": pr.proof_err, "theorems": pr.theorems}, found_input=False)
+        return
+    if jk_mismatches:
+        msg, rp_ = jk_mismatches[0]
+        res.violation(msg + " (%d disagreements; no violated clause of the property was found in the implementation's output)" % len(jk_mismatches),
+                      rp_, found_input=False)
         return
     if corr_bad:
         k = corr_bad[0]
